@@ -19,7 +19,9 @@ RULE = ("(a) tree level, against the heap model: random trees x {setter(g, expan
         "performed by the operation, by the next merkle_root(), by a second one; (b) view level, model-free: mutable "
         "types x values x (a few mutations, then) one mutation: walking old and new backing in parallel, every subtree "
         "off the paths to the changed chunk / field / length is the same object (`is`) as before, the next hash_tree_root() performs <= 2*depth+3+|new value| hashes, a second one / a copy's "
-        "/ a re-created view's performs none; non-trivial = path length >= 2")
+        "/ a re-created view's performs none; (c) containers constructed from hashed field views, also of other class "
+        "objects of the same type, and coercion of a container of another class: field backings shared; "
+        "non-trivial = path length >= 2")
 
 
 class Counter:
@@ -68,6 +70,11 @@ def gen_inputs(ctx):
         if h["cmds"]:
             h["kind"] = "view"
             yield h
+    # constructors given (hashed) field views, also of other class objects
+    conts = [t for t in NESTED + MUTABLE_TOP if t[0] == "cont"]
+    for i in range(m // 2):
+        t = conts[i % len(conts)]
+        yield {"kind": "ctor", "t": t, "v": gen_value(rng, t, cap=5)}
     # nested: mutations through child views and assignment of already hashed composite values
     for i in range(m):
         t = NESTED[i % len(NESTED)]
@@ -216,7 +223,7 @@ def build_view_case(inp):
     if cmd[0] in ("set", "append", "change") and not isinstance(r, E):
         et = elem_for(sh, cmd)
         a = cmd[-1]
-        if et is not None and a[0] == "val" and not is_basic(et):
+        if et is not None and a[0] in ("val", "viewalt") and not is_basic(et):
             tmp = {}
             reachable(to_py(et, a[1]).get_backing(), tmp)
             arg_nodes = len(tmp)
@@ -310,7 +317,7 @@ def build_nested_case(inp):
         # (3) hashes of the next root of the top view: bounded by the changed paths (+ a new, unhashed value)
         arg_nodes = 0
         a = cmd[-1]
-        if argview is None and et is not None and isinstance(a, list) and a and a[0] == "val" and not is_basic(et):
+        if argview is None and et is not None and isinstance(a, list) and a and a[0] in ("val", "viewalt") and not is_basic(et):
             try:
                 tmp = {}
                 reachable(to_py(et, a[1]).get_backing(), tmp)
@@ -332,7 +339,55 @@ def build_nested_case(inp):
     return cs
 
 
+def build_ctor_case(inp):
+    """model-free: a container constructed from field views — also views whose class is another class object of the same
+    type — shares every field's backing (the very same node object), and so does coercing a container of another class
+    with the same fields (assignment / append of a sibling fork's value)"""
+    t, v = inp["t"], inp["v"]
+    why = None
+    try:
+        kw, comp = {}, []
+        for i, (ft, x) in enumerate(zip(t[1], v)):
+            if ft[0] in ("list", "vec", "bitlist", "bitvec", "cont"):
+                C2 = fresh_class(ft) if i % 2 == 0 else T(ft)
+                fv = C2(**{"f%d" % j: to_py(g, y) for j, (g, y) in enumerate(zip(ft[1], x))}) if ft[0] == "cont" \
+                    else C2([to_py(ft[1], y) for y in x]) if ft[0] in ("list", "vec") else C2([c == "1" for c in x])
+                fv.hash_tree_root()
+                comp.append(i)
+            else:
+                fv = to_py(ft, x)
+            kw["f%d" % i] = fv
+        X = T(t)(**kw)
+        for i in comp:
+            g = int(type(X).key_to_static_gindex("f%d" % i))
+            if X.get_backing().getter(g) is not kw["f%d" % i].get_backing() and why is None:
+                why = "constructor: the backing of field view %d (%s class) was rebuilt instead of shared" % (
+                    i, "another" if i % 2 == 0 else "the same")
+        with Counter() as c:
+            X.hash_tree_root()
+            if c.n > 2 * len(t[1]) + 2 and why is None:
+                why = "root of a container built from hashed field views took %d hashes" % c.n
+        # coercion of a container of ANOTHER class with the same fields: field backings shared
+        Y = fresh_class(t)(**kw)
+        Y.hash_tree_root()
+        holder = List[T(t), 4]()
+        holder.append(Y)
+        Z = holder[0]
+        for i in comp:
+            g = int(type(X).key_to_static_gindex("f%d" % i))
+            if Z.get_backing().getter(g) is not kw["f%d" % i].get_backing() and why is None:
+                why = "append of a container of another class: field %d was rebuilt instead of shared" % i
+    except Exception as e:  # noqa
+        why = "constructor sharing scenario raised %r" % (e,)
+    cs = Case(inp, "(R \"00\", false, (OpSummarize 1%N), (0%N, 0%N, 0%N))", [True, b"\x00", [], True, True, True, 0], NAMES,
+              nontrivial=True, kind="ctor")
+    cs.why = why
+    return cs
+
+
 def build(inp):
+    if inp["kind"] == "ctor":
+        return build_ctor_case(inp)
     if inp["kind"] == "nested":
         return build_nested_case(inp)
     if inp["kind"] == "tree":
